@@ -321,6 +321,11 @@ class Interp(object):
                     lambda vs, s: self.get_item(vs[0], vs[1], s, e))
 
     def get_item(self, b, k, st, node=None):
+        if getattr(self, 'record_slices', False) and isinstance(b, BytesV) and isinstance(k, Const) and \
+                isinstance(k.value, int) and all(p[0] in ('lit', 'fix') for p in b.parts):
+            # an octet read by index counts as a use of that octet
+            one = prims._cut_recorded(self, b, k.value, (k.value + 1) or None, st, node)
+            prims.record_uses(self, [one], st, getattr(node, 'lineno', None))
         if isinstance(b, Obj):
             h = st.heap[b.oid]
             if h.kind == 'dict' and isinstance(k, Const):
@@ -419,6 +424,8 @@ class Interp(object):
     def call_opaque(self, fv, args, kwargs, st, line=None, node=None):
         d = fv.desc()
         target, _, meth = d.rpartition('.')
+        if getattr(self, 'record_slices', False):
+            prims.record_uses(self, args, st, line)
         st.actions.append(Action('call', target, meth, args, kwargs, line,
                                  getattr(st.cur_func(), 'qualname', None)))
         kind = 'bytes' if meth in ('encode', 'a2b_hex', 'unhexlify', 'to_bytes', 'join') and \
